@@ -6,7 +6,7 @@ import core
 COQ_HEADER = "From SPP Require Import Base.Bytes Base.Sx Corr.C03.\nFrom Coq Require Import ZArith List. Import ListNotations."
 COQ_MODEL = "run_c03"
 COQ_OK = "(ok_spec spec_c03)"
-COQ_INPUT_TYPE = "Z * (Z * Z) * Z * Z"
+COQ_INPUT_TYPE = "Z * list (Z * Z) * Z * Z"
 RULE = ("generated: exhaustive buffers of 0-2 bytes over an 8-value alphabet x every (p, n) in range; random buffers up to "
         "64 KiB with every (p mod 8, n mod 8); distinct = distinct (kind, p mod 8, n mod 8, aligned-path, len class, boundary)")
 ASSUMPTIONS = ["int.from_bytes / bytes slicing / int.to_bytes are CPython's"]
